@@ -66,6 +66,7 @@ def replay(ctx, names, prefix, maxlen=3):
     os.remove(dot)
     t2, cf2 = tlcmod.gen_mc(ctx.work, "ResultHistory", "MC_ResultHistory_dev", dict(base, OwnStorage=False), invariants=["EarlierResultsUntouched"])
     ctx.expect_violation(t2, cf2, inv="EarlierResultsUntouched", label="deviation OwnStorage", workers=4, timeout=300)
+    ctx.check_proof("ResultHistory_proofs")    # histories of any length
     full = sorted([[c_["f"] for c_ in s_["hist"]] for s_ in nodes.values() if len(s_["hist"]) == maxlen])
     n = 0
     with warnings.catch_warnings():
